@@ -49,6 +49,40 @@ func session(name string, nUser, nHandler, m int, pacing string, rng *rand.Rand)
 	if !s.Welcome("me", 5*time.Second) {
 		return nil, fmt.Errorf("registration did not complete")
 	}
+	if strings.Contains(name, "second-connection") {
+		// the session proper runs on a second connection that was requested (from another goroutine) while the
+		// first one was still being torn down behind a slow foreground handler
+		entered := make(chan struct{})
+		var once sync.Once
+		s.C.HandleFunc("SLOW", func(c *client.Conn, l *client.Line) {
+			once.Do(func() { close(entered) })
+			time.Sleep(50 * time.Millisecond)
+		})
+		s.Srv.SendLines("SLOW")
+		select {
+		case <-entered:
+		case <-time.After(5 * time.Second):
+			return nil, fmt.Errorf("the SLOW handler was never entered")
+		}
+		go s.C.Close()
+		for t0 := time.Now(); s.C.Connected() && time.Since(t0) < 5*time.Second; {
+			time.Sleep(200 * time.Microsecond)
+		}
+		cerr := make(chan error, 1)
+		go func() { cerr <- s.C.Connect() }()
+		select {
+		case err := <-cerr:
+			if err != nil {
+				return nil, fmt.Errorf("second Connect: %v", err)
+			}
+		case <-time.After(10 * time.Second):
+			return nil, fmt.Errorf("second Connect did not return")
+		}
+		s.LatestSrv()
+		if !s.Welcome("me", 5*time.Second) {
+			return nil, fmt.Errorf("registration did not complete on the second connection")
+		}
+	}
 	srv := s.Srv
 	base, _ := srv.Lines()
 	skip := len(base)
@@ -223,6 +257,19 @@ func RunOut(args []string) int {
 	}
 	n, lines := 0, 0
 	var sample interface{}
+	{
+		name := "users=3 handlers=1 lines=40 pacing=fast second-connection"
+		r, err := session(name, 3, 1, 40, "fast", rng)
+		if err != nil {
+			fmt.Println("INCOMPLETE " + name + ": " + err.Error())
+			return 3
+		}
+		b, _ := json.Marshal(r)
+		w.Write(b)
+		w.WriteByte('\n')
+		n++
+		lines += len(r.Wire)
+	}
 	for _, p := range plans {
 		for _, pacing := range []string{"fast", "slow", "burst", "stall"} {
 			name := fmt.Sprintf("users=%d handlers=%d lines=%d pacing=%s", p.u, p.h, p.m, pacing)
